@@ -125,6 +125,8 @@ type c3Scenario struct {
 	ColsDesc bool // spark-trunc: --sort-cols text:reverse
 	Missing   int  // paths on the command line that do not exist (every variant names as many): read errors, exit status 2
 	NoMatcher bool // no -m/-d on the command line: every line matches as a whole ({0})
+	AtLeast    int  // histo --atleast: the screen shows only keys with at least this count (the CSV export shows all)
+	SmallView  bool // table/heatmap with --cols/--num smaller than the data: the screen is cut, the CSV export is not
 	RecordTerm bool // keep every screen line the program writes (intermediate renders), see c13Screens
 	OneByOne bool // equality only demanded between 1-reader-1-worker variants (not used by the order-insensitive commands)
 }
@@ -241,6 +243,10 @@ func c3GenScenario(t *simrt.Tape) *c3Scenario {
 		if t.WBool(1, 3) {
 			sc.Flags = append(sc.Flags, "-x")
 		}
+		if t.WBool(1, 4) {
+			sc.AtLeast = 1 + t.W(4)
+			sc.Flags = append(sc.Flags, "--atleast", strconv.Itoa(sc.AtLeast))
+		}
 		sc.HasCSV = true
 	case "table", "heatmap", "spark":
 		sc.Tpls = []c3Tpl{c3KeyTpl(t, 1), c3KeyTpl(t, 2)}
@@ -248,6 +254,12 @@ func c3GenScenario(t *simrt.Tape) *c3Scenario {
 			sc.Tpls = append(sc.Tpls, c3Tpl{{Grp: 3}})
 		}
 		sc.Flags = append(common, sc.Kind, "--num", "1000", "--cols", "1000", "--sort-rows", []string{"text", "value"}[t.W(2)], "--sort-cols", []string{"text", "value", "text:reverse"}[t.W(3)])
+		if sc.Kind != "spark" && t.WBool(1, 4) {
+			// a view smaller than the data: which rows and columns are shown is a function of the final data (and the export
+			// still holds everything), however many refreshes saw other rows and columns in front
+			sc.SmallView = true
+			sc.Flags[5], sc.Flags[7] = strconv.Itoa(1+t.W(3)), strconv.Itoa(1+t.W(3))
+		}
 		if sc.Kind == "table" && t.WBool(1, 2) {
 			sc.Flags = append(sc.Flags, "--rowtotal", "--coltotal")
 		}
@@ -844,7 +856,7 @@ func c3CheckReference(rc *RunCtx, sc *c3Scenario, ref *c3Ref, o *c3Out, ctx func
 		rc.Violate("ref-exit", "exit status %d, expected %d (reference: %d parse errors, %d matched)\nstderr: %q\n%s", o.Res.Exit, want, ref.ParseErrors, ref.Matched, clip(string(o.Res.Stderr), 300), ctx())
 	}
 	if sc.Kind == "histo" {
-		c3CheckHistoSnapshot(rc, ref, o, ctx)
+		c3CheckHistoSnapshot(rc, ref, o, ctx, int64(sc.AtLeast))
 	}
 	if !sc.HasCSV {
 		if sc.Kind == "analyze" {
@@ -1017,7 +1029,13 @@ var c3HistoRow = regexp.MustCompile(`^(.*?) {4,}(-?\d+)(?: |$)`)
 
 // c3CheckHistoSnapshot: the final snapshot of a histogram shows exactly the reference keys and counts
 // (the "final output reflects all matches" clause at CLI level). Skipped when a key spans lines.
-func c3CheckHistoSnapshot(rc *RunCtx, ref *c3Ref, o *c3Out, ctx func() string) {
+func c3CheckHistoSnapshot(rc *RunCtx, ref *c3Ref, o *c3Out, ctx func() string, atLeast int64) {
+	want := map[string]int64{}
+	for k, v := range ref.Hist {
+		if v >= atLeast {
+			want[k] = v
+		}
+	}
 	for k := range ref.Hist {
 		if strings.ContainsAny(k, "\n\r") || strings.Contains(k, "    ") {
 			return
@@ -1035,11 +1053,11 @@ func c3CheckHistoSnapshot(rc *RunCtx, ref *c3Ref, o *c3Out, ctx func() string) {
 		}
 		got[m[1]] = m[2]
 	}
-	if len(got) != len(ref.Hist) {
-		rc.Violate("ref-snapshot-content", "the final snapshot shows %d keys, the reference has %d\nsnapshot:\n%s\n%s", len(got), len(ref.Hist), clip(o.Stdout, 600), ctx())
+	if len(got) != len(want) {
+		rc.Violate("ref-snapshot-content", "the final snapshot shows %d keys, the reference has %d (with at least %d)\nsnapshot:\n%s\n%s", len(got), len(want), atLeast, clip(o.Stdout, 600), ctx())
 		return
 	}
-	for k, v := range ref.Hist {
+	for k, v := range want {
 		if got[k] != strconv.FormatInt(v, 10) {
 			rc.Violate("ref-snapshot-content", "the final snapshot shows %q = %q, the reference count is %d\nsnapshot:\n%s\n%s", k, got[k], v, clip(o.Stdout, 600), ctx())
 			return
